@@ -40,7 +40,7 @@ REQUIRED = ["detected_utf-8", "detected_cp1252", "detected_cp932", "detected_cp9
             "file_ends_with_non_ascii_character", "input_path_with_several_dots", "several_dots_and_content_of_the_other_format",
             "backup_path_is_a_proper_prefix_of_the_input_path", "backup_name_differs_from_input_or_output_only_in_letter_case",
             "utf8_bom_and_utf8_not_first_in_the_tried_list", "only_extra_components_edited_with_backup",
-            "stale_file_under_the_backup_name"]
+            "stale_file_under_the_backup_name", "serialization_of_exactly_65536_characters"]
 
 DEFAULT = ["utf-8", "cp1252", "cp932", "cp949"]
 SAMPLES = {
@@ -417,6 +417,14 @@ def check(ctx, case):
                         ctx.feat("edit_changes_chart_in_place")
                     if op[0] == "cs_extra" and bak_path:
                         ctx.feat("only_extra_components_edited_with_backup")
+                if case["seed"] % 16 == 3:
+                    # the text written at block exit is exactly 65536 characters long
+                    s["PAD"] = ""
+                    n0 = len(str(s))
+                    if n0 < 65536:
+                        s["PAD"] = "x" * (65536 - n0)
+                        if len(str(s)) == 65536:
+                            ctx.feat("serialization_of_exactly_65536_characters")
                 snaps["S1"] = copy.deepcopy(s)
         except Exception as e:
             err = e
